@@ -131,6 +131,7 @@ class Executor:
     if n in st.env: yield st,(s.freeze(st.env[n],st) if s.spec else st.env[n]); return
     if s.spec and s.spec_env is not None and n in s.spec_env: yield st,s.spec_env[n]; return
     g=s.lookup_global(n)
+    if g is None and not s.spec and n in (getattr(getattr(s,'contract',None),'opaque_methods',None) or {}): g=Cls(n)
     if g is None:
       if s.spec: raise ToolError(f"unbound name {n} in contract expression")
       raise Unsupported(f"global name {n} is not modelled (imported module / unknown object)")
@@ -144,6 +145,7 @@ class Executor:
       c=getattr(s,'contract',None)
       if c is not None and n in fg.get(c.qual,{}): return fg[c.qual][n]
     if s.mod is not None and n in s.mod.functions: return Fn(n)
+    if s.mod is not None and n in getattr(s.mod,'imported',()) and any(k.endswith('::'+n) for k in s.reg.contracts): return Fn(n)   # `from m import f` with f under contract
     if s.spec and n in SPEC_FUNS: return Fn(n)
     if n in BUILTIN_FNS: return Fn(n)
     if n in BUILTIN_CLS or n in EXC_PARENTS: return Cls(n)
@@ -181,6 +183,19 @@ class Executor:
     # { v: <constant> for v in <set> } : a dict whose domain is the set and whose values are all the constant ([] -> empty abstracted list, int)
     from . import symcoll
     g=e.generators[0]
+    if (len(e.generators)==1 and not g.ifs and isinstance(g.target,ast.Name) and isinstance(e.value,ast.Name) and e.value.id==g.target.id and isinstance(e.key,ast.Call)
+        and isinstance(e.key.func,ast.Name) and e.key.func.id=='id' and len(e.key.args)==1 and isinstance(e.key.args[0],ast.Name) and e.key.args[0].id==g.target.id):
+      # { id(v): v for v in <set> } : the inverse of id() on the set (id is injective on live objects: IDF/UNID with UNID(IDF(x)) == x)
+      for st1,it in s.ev(g.iter,st):
+        if isinstance(it,Exc): yield st1,it; continue
+        dom,kt=symcoll.setval(it,st1)
+        k=z3.Const('k!id',symcoll.Obj); x=symcoll.UNID(symcoll.Obj.ival(k))
+        st2=st1.fork(); r=st2.alloc('dict')
+        st2.heap[(r.id,'dom')]=z3.Lambda([k],z3.And(symcoll.Obj.is_ibox(k),z3.Select(dom,x),symcoll.IDF(x)==symcoll.Obj.ival(k)))
+        st2.heap[(r.id,'val')]=z3.Lambda([k],x); st2.heap[(r.id,'key')]=IntT(); st2.heap[(r.id,'vt')]=kt or symcoll.ObjK(); st2.heap[(r.id,'default')]=None
+        st2.pc.append(symcoll.id_axiom())
+        yield st2,r
+      return
     if len(e.generators)!=1 or g.ifs or not isinstance(g.target,ast.Name) or not isinstance(e.key,ast.Name) or e.key.id!=g.target.id: raise Unsupported("general dict comprehension")
     if any(isinstance(x,ast.Name) and x.id==g.target.id for x in ast.walk(e.value)): raise Unsupported("dict comprehension value depends on the key")
     for st1,it in s.ev(g.iter,st):
@@ -621,6 +636,9 @@ class Executor:
       if h is not None: yield from h.getitem(s,o,idx,st); return
       if s.reg.find_method(o.cls,'__getitem__') is not None:
         yield from s.call_method(o,'__getitem__',[idx],st); return
+    if isinstance(o,Opq) and o.kind=='any':       # opaque data the property does not depend on (assumed not to raise; listed with the opaque methods)
+      from . import symcoll
+      st2=st.fork(); yield st2,mk_value(symcoll.ObjK('any'),"item@any",st2,True); return
     raise Unsupported(f"subscript of {o!r}")
 
   def ev_Call(s,e,st):
@@ -637,6 +655,13 @@ class Executor:
           hit=True; v=st1.heap[(o.id,e.func.attr+'()')]; yield st1,(s.freeze(v,st1) if s.spec else v)
         else: break
       if hit: return
+    om=getattr(getattr(s,'contract',None),'opaque_methods',None)
+    if om and isinstance(e.func,ast.Attribute) and e.func.attr in om and not s.spec:
+      # a method the contract declares opaque (assumption, listed in the evidence): pure, does not raise, returns a value of the stated spec type
+      for st1,vals in s.evs([e.func.value]+list(e.args)+[k.value for k in e.keywords],st):
+        if isinstance(vals,Exc): yield st1,vals; continue
+        st2=st1.fork(); yield st2,mk_value(om[e.func.attr],f"{e.func.attr}@{e.lineno}",st2,True)
+      return
     for st1,f in s.ev(e.func,st):
       if isinstance(f,Exc): yield st1,f; continue
       for st2,vals in s.evs(list(e.args)+[k.value for k in e.keywords],st1):
@@ -653,6 +678,9 @@ class Executor:
       # generated fixed-width subclass (bits_import template, verified separately): BitsN(v, trunc_int=..) == Bits.__init__(N, v, trunc_int)
       yield from s.call_contract(f'{f.base}.__init__',None,[I(f.n)]+list(args),kw,st,ctor=f.base); return
     if isinstance(f,Cls):
+      om=getattr(getattr(s,'contract',None),'opaque_methods',None)
+      if om and f.name in om:
+        st2=st.fork(); yield st2,mk_value(om[f.name],f"{f.name}()",st2,True); return
       if f.name in EXC_PARENTS or s.reg.is_exception(f.name):
         yield st,st.alloc('exc:'+f.name); return
       if f.name in BUILTIN_CLS:
@@ -1448,7 +1476,16 @@ def _bi_shuffle(s,f,args,kw,st):
 BUILTIN_FNS={'hasattr':_bi_hasattr,'random.shuffle':_bi_shuffle,'super':_bi_super,'issubclass':_bi_issubclass,'int':_bi_int,'isinstance':_bi_isinstance,'abs':_bi_abs,'hex':_bi_hex,'str':_bi_str,'repr':_bi_repr,
   'len':_bi_len,'range':_bi_range,'hash':_bi_hash,'object.__new__':_bi_object_new,'min':_bi_minmax,'max':_bi_minmax,
   'bool':_bi_bool,'int.bit_length':_bi_bit_length,'bin':_bi_str,'oct':_bi_str}
-BUILTIN_CLS={'set':_bi_setctor,'slice':_bi_slice,'tuple':_bi_tuple,'list':_bi_listctor,'int':_bi_intcls,'bool':_bi_boolcls,'object':None,'str':None}
+def _bi_id(s,f,args,kw,st):
+  from . import symcoll
+  st2=st.fork(); st2.pc.append(symcoll.id_axiom()); yield st2,I(symcoll.IDF(symcoll.to_obj(args[0],st)))
+BUILTIN_FNS['id']=_bi_id
+def _bi_pq(s,args,kw,st):
+  # queue.PriorityQueue used single-threaded: a duplicate-free collection from which get() removes some element (the minimum: any element is
+  # a sound over-approximation for order-independent postconditions); put(x) carries the obligation that x is not yet queued
+  from . import symcoll
+  st2=st.fork(); yield st2,symcoll.new_setlist(st2,None,symcoll.PairOf(IntT(),IntT()))
+BUILTIN_CLS={'PriorityQueue':_bi_pq,'set':_bi_setctor,'slice':_bi_slice,'tuple':_bi_tuple,'list':_bi_listctor,'int':_bi_intcls,'bool':_bi_boolcls,'object':None,'str':None}
 
 # ------------------------------------------------------------------------------------------------ spec functions (contract language)
 def _sf_pow2(s,args,st): return I(st.th.pow2(as_int(args[0])))
